@@ -503,7 +503,12 @@ def cSync (st : St) (f : String) : St × String :=
 
 /-- `cfresh`: true from `c open` until the first line that may write to the connection's stream -/
 def stepC (st : St) (w : List String) : St × String :=
-  let (st', ln) := (match w with | ["c", "sync", f] => cSync st f | _ => stepC0 st w)
+  -- `c reassign`: the connection gets a new target (mpt_connection_assign runs mpt_connection_close): same as `c close` for
+  -- the waiting commands and the reply context — handles deferred before are detached from the transport
+  let (st', ln) := (match w with
+    | ["c", "sync", f] => cSync st f
+    | ["c", "reassign"] => stepC0 st ["c", "close"]
+    | _ => stepC0 st w)
   if ln = "bad-op" then (st', ln) else
   match w with
   | ["c", "open", _] => ({ st' with cfresh := true }, ln)
